@@ -409,6 +409,119 @@ impl Part for E3a {
 }
 
 // ------------------------------------------------------------------------------------------------
+// E3a': every ordered pair of (suite, mode) combinations, one session after the other in one process
+// ------------------------------------------------------------------------------------------------
+
+#[derive(Clone, Debug, Serialize, Deserialize)]
+struct PairCase {
+    a: (SuiteId, Mode),
+    b: (SuiteId, Mode),
+}
+
+struct SuitePairs {
+    modes: Vec<Mode>,
+}
+
+/// one complete session on the erased-suite adapter, every observable compared with R1
+fn dyn_session(out: &mut CaseOut, suite: SuiteId, mode: Mode, tag: u64, seed: u64, what: &str) {
+    use hpke_mc::suites::suite_ops;
+    let ops = suite_ops(suite);
+    let k = keys(suite.kem, 18_500 + tag, seed);
+    let info = bytes(Fill::Mix, 13, tag, seed);
+    let m = mode_spec(mode, &k, &bytes(Fill::Mix, 32, 11, seed), &bytes(Fill::Mix, 22, 12, seed));
+    let (enc_ref, mut c) = match r1_setup_s(suite, &m, &k.pk_r, &info, &k.ikm_e) {
+        Some(x) => x,
+        None => {
+            out.fail("R1 setup failed");
+            return;
+        }
+    };
+    let mut rng = ScriptRng::new(&k.ikm_e);
+    out.transitions += 1;
+    let mut s = match ops.setup_sender(&m, &k.pk_r, &info, &mut rng) {
+        Obs::Ok((enc, s)) => {
+            if enc != enc_ref {
+                out.fail(format!("{}: enc differs from R1's", what));
+            }
+            s
+        }
+        o => {
+            out.fail(format!("{}: setup_sender {}", what, o.map(|_| ()).class()));
+            return;
+        }
+    };
+    let want_ex = c.export(b"pair", 32).unwrap();
+    out.transitions += 1;
+    if s.export(b"pair", 32) != Obs::Ok(want_ex.clone()) {
+        out.fail(format!("{}: sender export differs from R1's (the result depends on what ran before)", what));
+    }
+    let mut ct = None;
+    if suite.aead.can_seal() {
+        let w = c.seal(b"aad", b"pair sweep").unwrap();
+        out.transitions += 1;
+        if s.seal(b"pair sweep", b"aad") != Obs::Ok(w.clone()) {
+            out.fail(format!("{}: ciphertext differs from R1's", what));
+        }
+        ct = Some(w);
+    }
+    out.transitions += 1;
+    match ops.setup_receiver(&m, &k.sk_r, &enc_ref, &info) {
+        Obs::Ok(mut r) => {
+            if r.export(b"pair", 32) != Obs::Ok(want_ex) {
+                out.fail(format!("{}: receiver export differs from R1's", what));
+            }
+            if let Some(w) = ct {
+                out.transitions += 1;
+                if r.open(&w, b"aad") != Obs::Ok(b"pair sweep".to_vec()) {
+                    out.fail(format!("{}: receiver cannot open R1's ciphertext", what));
+                }
+            }
+        }
+        o => out.fail(format!("{}: setup_receiver {}", what, o.map(|_| ()).class())),
+    }
+}
+
+impl Part for SuitePairs {
+    type Case = PairCase;
+    fn name(&self) -> String {
+        "E3a-suite-pair-sweep".into()
+    }
+    fn rule(&self) -> String {
+        "every ordered pair (a, b) of (suite, mode) combinations over all 48 suites: a complete session of a, then of b, then of a again with other keys, in one process, every observable compared with R1 - exposes lazily initialised or last-value process-wide state keyed too coarsely (by KEM, KDF, AEAD or mode) whatever its collision pattern; cases run on many threads at once, so the order is additionally perturbed".into()
+    }
+    fn bound(&self, _cfg: &Cfg) -> String {
+        format!("48 suites x modes {:?}: all ordered pairs", self.modes)
+    }
+    fn enumerate(&self, _cfg: &Cfg) -> Vec<PairCase> {
+        let mut combos = vec![];
+        for s in hpke_mc::suites::all_suites() {
+            for &m in &self.modes {
+                combos.push((s, m));
+            }
+        }
+        let mut v = vec![];
+        for &a in &combos {
+            for &b in &combos {
+                if a != b {
+                    v.push(PairCase { a, b });
+                }
+            }
+        }
+        v
+    }
+    fn run(&self, cfg: &Cfg, c: &PairCase) -> CaseOut {
+        let mut out = CaseOut::new();
+        out.nontrivial = true;
+        out.outcome = format!("{:?}->{:?}", c.a.1, c.b.1);
+        dyn_session(&mut out, c.a.0, c.a.1, 1, cfg.seed, &format!("{} {:?} (first)", c.a.0.name(), c.a.1));
+        dyn_session(&mut out, c.b.0, c.b.1, 2, cfg.seed, &format!("{} {:?} after {} {:?}", c.b.0.name(), c.b.1, c.a.0.name(), c.a.1));
+        dyn_session(&mut out, c.a.0, c.a.1, 3, cfg.seed, &format!("{} {:?} again after {} {:?}", c.a.0.name(), c.a.1, c.b.0.name(), c.b.1));
+        out.states = 1;
+        out
+    }
+}
+
+// ------------------------------------------------------------------------------------------------
 // E3b: baton scheduler
 // ------------------------------------------------------------------------------------------------
 
@@ -888,7 +1001,14 @@ fn main() {
     let e3b = E3b { scen: scenarios(cfg.seed, t), bounds: if t { vec![0, 1, 2, 3] } else { vec![0, 1, 2] }, stats: Mutex::new(vec![]) };
     if let Some(path) = &cfg.replay {
         let v: serde_json::Value = serde_json::from_str(&std::fs::read_to_string(path).expect("cannot read replay file")).expect("bad replay file");
-        let res = if v["part"].as_str() == Some(&e3a.name()) { replay_part(&e3a, &cfg, &v["case"]) } else { replay_part(&e3b, &cfg, &v["case"]) };
+        let pairs = SuitePairs { modes: vec![] };
+        let res = if v["part"].as_str() == Some(&e3a.name()) {
+            replay_part(&e3a, &cfg, &v["case"])
+        } else if v["part"].as_str() == Some(&pairs.name()) {
+            replay_part(&pairs, &cfg, &v["case"])
+        } else {
+            replay_part(&e3b, &cfg, &v["case"])
+        };
         match res {
             Ok(o) => {
                 println!("replay: {} comparisons, {} mismatches", o.transitions, o.mismatches.len());
@@ -908,6 +1028,12 @@ fn main() {
     if want(&e3a.name()) {
         let r = run_part(&e3a, &cfg);
         eprintln!("  part {}: cases {} interleavings {} transitions {} violating {} ({:.1}s)", r.name, r.run, r.states, r.transitions, r.violations.len(), r.wall_s);
+        reports.push(r);
+    }
+    let pairs = SuitePairs { modes: if t { vec![Mode::Base, Mode::Psk, Mode::Auth, Mode::AuthPsk] } else { vec![Mode::Base, Mode::AuthPsk] } };
+    if want(&pairs.name()) {
+        let r = run_part(&pairs, &cfg);
+        eprintln!("  part {}: cases {} transitions {} violating {} ({:.1}s)", r.name, r.run, r.transitions, r.violations.len(), r.wall_s);
         reports.push(r);
     }
     if want(&e3b.name()) {
